@@ -68,7 +68,7 @@ def drive_and_validate(label, h, args, timeout=3000):
              wall_s=round(p.wall + r.wall, 1))
     log("[trace] %s: %d events, %d signatures, drift %d, violations %s (%.1fs drive, %.1fs TLC)" %
         (label, v["len"], st["signatures"], v["drift"], v["nviols"], p.wall, r.wall))
-    if os.environ.get("VERIF_SELFTEST") and v["len"] <= 2500 and not sum(v["nviols"].values()) and "replay" not in label:
+    if os.environ.get("VERIF_SELFTEST") and v["len"] <= 2500 and os.path.getsize(tr) < 8 << 20 and not sum(v["nviols"].values()) and "replay" not in label:
         import kit, itertools
         ctr = itertools.count()
         def jf(lab, pth, exp):
@@ -78,7 +78,7 @@ def drive_and_validate(label, h, args, timeout=3000):
                 raise Infra("selftest trace produced no result")
             v1 = json.load(open(res1))
             return {"nviol": sum(v1["nviols"].values()), "drift": v1["drift"], "viols": v1["viols"]}
-        kit.selftest(label, "TraceXmssKey", cfg, tr, stateless=False, judge_fn=jf)
+        kit.selftest(label, "TraceXmssKey", cfg, tr, stateless=False, judge_fn=jf, max_trials=24)
     return v
 
 def sample_events(trace, n=3):
@@ -96,7 +96,8 @@ PLANS = {
     # label, h, args
     "C01": {
         "quick": [
-            ("h22-tall", 22, ["-hf", "2", "-seam", "-modes", "tall"]),       # longest first (run in parallel)
+            ("h24-pos-tall", 24, ["-hf", "1", "-pos", "-modes", "tall"]),    # longest first (run in parallel)
+            ("h22-tall", 22, ["-hf", "2", "-seam", "-modes", "tall"]),
             ("h4-real", 4, ["-hf", "0,1,2", "-modes", "walk,jumps", "-jumpmode", "all"]),
             ("h6-real", 6, ["-hf", "0,1,2", "-modes", "walk"]),
             ("h6-real-jumps", 6, ["-hf", "0", "-modes", "jumps", "-jumpmode", "classes", "-stride", "3"]),
@@ -120,6 +121,11 @@ PLANS = {
             ("h18-tall", 18, ["-hf", "1", "-seam", "-modes", "tall"]),
             ("h20-tall", 20, ["-hf", "2", "-seam", "-modes", "tall"]),
             ("h22-tall", 22, ["-hf", "0", "-seam", "-modes", "tall"]),
+            ("h24-pos-tall", 24, ["-hf", "1", "-pos", "-modes", "tall"]),
+            ("h26-pos-tall", 26, ["-hf", "2", "-pos", "-modes", "tall"]),
+            ("h28-pos-tall", 28, ["-hf", "0", "-pos", "-modes", "tall"]),
+            ("h30-pos-tall", 30, ["-hf", "1", "-pos", "-modes", "tall"]),
+            ("h10-pos", 10, ["-hf", "0,1,2", "-pos", "-modes", "walk"]),
         ],
     },
     "C02": {
@@ -129,6 +135,7 @@ PLANS = {
             ("h6-seam", 6, ["-hf", "1,2", "-seam", "-modes", "walk,random", "-reps", "12"]),
             ("h8-seam", 8, ["-hf", "0", "-seam", "-modes", "random", "-reps", "6"]),
             ("h18-tall", 18, ["-hf", "2", "-seam", "-modes", "tall"]),
+            ("h20-pos-tall", 20, ["-hf", "0", "-pos", "-modes", "tall"]),
             ("h4-otherhash", 4, ["-hf", "0", "-modes", "counter"]),
             ("h6-otherhash", 6, ["-hf", "0", "-modes", "counter"]),
         ],
@@ -143,6 +150,8 @@ PLANS = {
             ("h10-seam", 10, ["-hf", "0", "-seam", "-modes", "random", "-reps", "10"]),
             ("h18-tall", 18, ["-hf", "2", "-seam", "-modes", "tall"]),
             ("h20-tall", 20, ["-hf", "0", "-seam", "-modes", "tall"]),
+            ("h24-pos-tall", 24, ["-hf", "1", "-pos", "-modes", "tall"]),
+            ("h30-pos-tall", 30, ["-hf", "2", "-pos", "-modes", "tall"]),
         ],
     },
     "C08": {
@@ -152,6 +161,7 @@ PLANS = {
             ("h6-seam", 6, ["-hf", "1", "-seam", "-modes", "rebuild", "-window", "64"]),
             ("h8-seam", 8, ["-hf", "2", "-seam", "-modes", "rebuild", "-window", "10", "-crashevery", "7"]),
             ("h18-tallrebuild", 18, ["-hf", "0", "-seam", "-modes", "tallrebuild"]),
+            ("h24-pos-tallrebuild", 24, ["-hf", "2", "-pos", "-modes", "tallrebuild"]),
         ],
         "thorough": [
             ("h4-real", 4, ["-hf", "0,1,2", "-modes", "rebuild", "-window", "16"]),
@@ -161,6 +171,8 @@ PLANS = {
             ("h10-seam", 10, ["-hf", "2", "-seam", "-modes", "rebuild", "-window", "12", "-crashevery", "13"]),
             ("h18-tallrebuild", 18, ["-hf", "0", "-seam", "-modes", "tallrebuild"]),
             ("h20-tallrebuild", 20, ["-hf", "1", "-seam", "-modes", "tallrebuild"]),
+            ("h24-pos-tallrebuild", 24, ["-hf", "2", "-pos", "-modes", "tallrebuild"]),
+            ("h28-pos-tallrebuild", 28, ["-hf", "0", "-pos", "-modes", "tallrebuild"]),
         ],
     },
 }
